@@ -61,3 +61,5 @@ def run(repo, res, tier):
     for fn in sorted(tf):
         res.oblige("T8", fn, ok=fn not in t8fns)
     common.lexer_yield_rule(repo, res)
+    from .. import effects
+    effects.rule_e5(repo, res)
